@@ -90,12 +90,10 @@ void Arena::_init(size_t min_block_size, Span<uint8_t> static_arena_memory) noex
 void Arena::reset(ResetPolicy reset_policy) noexcept {
   ManagedBlock* first = _first_block;
 
-  if (reset_policy == ResetPolicy::kHard) {
+  // An arena that has no managed block may still own dynamic blocks (requests above the largest reusable slot), so
+  // only the release of managed blocks is skipped in such case.
+  if (reset_policy == ResetPolicy::kHard && first != &_arena_zero_block) {
     ManagedBlock* current = first;
-
-    if (first == &_arena_zero_block) {
-      return;
-    }
 
     if (has_static_block()) {
       current = current->next;
